@@ -43,6 +43,30 @@ CLAIMED = {
         technique="symbolic execution of the real Python code with proxy values (z3 path feasibility, frontier "
                   "splitting over workers) + one QF_NRA validity query per obligation and path",
         design="3.18"),
+    "C15": dict(
+        text="The real periodic-boundary functions are executed with the box length itself a symbolic double (set "
+             "through the real setters): cvc5 proves bit-precisely that corrected positions lie in [0,L), that the "
+             "correction is idempotent and fixes positions already in the box, that corrected separations lie in "
+             "[-L/2,L/2] and that the cubic and cuboid implementations are bit-identical; z3 proves over the reals "
+             "(two distinct lengths) congruence modulo L, the half-open minimum-image range and next_image.",
+        note="Bit-precise part bounded to |x| < 4L (quick) / 16L (thorough) by the exact fmod expansion and to "
+             "1e-300 < L < 1e300; congruence decided in ideal reals only.",
+        technique="symbolic execution of the real Python code on IEEE-754 proxies (CPython float_rem encoded exactly; "
+                  "QF_FP, cvc5) and on reals (QF_NIRA, z3)",
+        design="3.15"),
+    "C16": dict(
+        text="For each grid of a stated family the real constructor runs concretely and the real position_to_cell is "
+             "executed on a symbolic double (every double in [0,L) along each axis): the solver proves the returned "
+             "cell's recorded extent contains the position, no other cell does, no index leaves its row, every cell "
+             "is reached. Neighbour/nearby/relative/translate are executed for every pair of symbolic cell "
+             "identifiers and compared with index arithmetic modulo the cells per side.",
+        note="Grid family listed in the evidence (box lengths and cell counts are concrete); int(p/c) for a constant "
+             "c is decided through its exact step function (thresholds derived in rational arithmetic, cross-checked "
+             "against the host FPU and z3's fp.div at every step; monotonicity of IEEE division assumed). Torus "
+             "relations are a solver-driven enumeration of a finite domain.",
+        technique="symbolic execution of the real Python code on IEEE-754 proxies with a division-by-constant cut "
+                  "(QF_FP compare-only, cvc5) + symbolic integers forked by z3",
+        design="3.16"),
 }
 
 NOT_APPLICABLE = {
